@@ -11,7 +11,7 @@
    `pool_src_switches` is read from the Go source on every run (Gen/PoolSrc.v).  The theorems are stated for the
    code that is in the tree: if one of the repaired spots regresses, `exact` below no longer type-checks. *)
 From Coq Require Import List ZArith Bool.
-From MV Require Import Model.Pool Model.PoolMx Gen.PoolSrc Proofs.Pool Proofs.PoolMx Model.PoolInit Proofs.PoolInit Model.PoolDestroy Proofs.PoolDestroy Model.PoolAdmit Proofs.PoolAdmit Model.PoolAdmitN Proofs.PoolAdmitN.
+From MV Require Import Model.Pool Model.PoolMx Gen.PoolSrc Proofs.Pool Proofs.PoolMx Model.PoolInit Proofs.PoolInit Model.PoolDestroy Proofs.PoolDestroy Model.PoolAdmit Proofs.PoolAdmit Model.PoolAdmitN Proofs.PoolAdmitN Model.PoolPut Proofs.PoolPut.
 Import ListNotations.
 Open Scope Z_scope.
 
@@ -253,6 +253,18 @@ Proof. exact (fun sched => adrunN_one sched (conn_cfg true)). Qed.
 Example c09_max_connections_concurrent_any_example :
   ad_conns (snd (adrunN 2 [0;0;0;0; 1;1;1;1; 2;2;2; 3;3;3]%nat (conn_cfgN 4))) = 2%Z.
 Proof. exact conn_count_locked_N_reaches_limit. Qed.
+
+(* RETURN of a leased ping-pong client against the CLOSE EVENT of the same client (Model/PoolPut.v): the source tests the
+   client's closed flag inside the critical section that appends it to the idle list (read from the source by the
+   translator: putClientToPoolLocked / activeClientPingPong.Close / removeFromPool), so under every schedule a closed
+   connection is never idle in the pool; with the test moved in front of the lock the close event fits between test and
+   append and the next request is leased a dead connection (seed C09-h). *)
+Theorem c09_pp_return_vs_close_event : put_statement (put_cfg poolput_src_pp_closed_tested_locked).
+Proof. exact put_tested_locked_safe. Qed.
+Print Assumptions c09_pp_return_vs_close_event.
+
+Theorem c09_pp_closed_tested_before_lock_refuted : ~ put_statement (put_cfg false).
+Proof. exact put_tested_before_lock_refuted. Qed.
 
 Theorem c09_count_after_dial_refuted : ~ entry_statement (conn_cfg false).
 Proof. exact conn_count_after_dial_refuted. Qed.
